@@ -178,7 +178,7 @@ def call_text(name, args, forced, rng):
     return "%s(%s)" % (name, ",".join(parts))
 
 
-NAMES = ["#M", "#Mac_1", "#N2", "Mx", "Zq1"]
+NAMES = ["#M", "#Mac_1", "#N2", "Mx", "Zq1", "Mid", "Chr", "Rnd", "Replace"]      # the last four: unreserved names that built-in FUNCTIONS also have
 
 
 def gen_macro_cases(rng, n):
